@@ -154,4 +154,57 @@ def builderStep (s : DState) : List String → Option (DState × String)
     | none => some (s, "bad-op")
   | _ => none
 
+/-- a cache that keeps the interner (and the ghost-id counter) but forgets its tokens and nodes -/
+def forgetCache (c : Cache) : Cache := { c with toks := [], nodes := [] }
+
+/-- one compact event: `s<kind>` start, `t<kind>:<hex>` token, `k<kind>` static token, `f` finish_node -/
+def compactEvent (w : String) : Option (List String) :=
+  match w.toList with
+  | 's' :: r => some ["start", String.ofList r]
+  | 'k' :: r => some ["stok", String.ofList r]
+  | ['f'] => some ["finish_node"]
+  | 't' :: r =>
+    match (String.ofList r).splitOn ":" with
+    | [k, h] => some ["tok", k, h]
+    | _ => none
+  | _ => none
+
+/-- `wbuild how cN events`: a whole tree built in one go through one of the borrowing / consuming
+    constructors (`with_cache`, `with_interner`, `from_interner`): same builder, the cache is kept,
+    replaced by a fresh one over the same interner before (and, for `with_interner`, also after) the build -/
+def wbuildStep (s : DState) : List String → Option (DState × String)
+  | ["wbuild", how, c, evs] =>
+    match parseRef 'c' c with
+    | none => some (s, "bad-op")
+    | some slot =>
+      match s.caches[slot]? with
+      | some (some cache) =>
+        let fresh := how == "with_interner" || how == "from_interner"
+        let s0 := if fresh then { s with caches := s.caches.set! slot (some (forgetCache cache)) } else s
+        match builderStep s0 ["builder", c] with
+        | some (s1, "ok") =>
+          let rec go (st : DState) : List String → Option DState
+            | [] => some st
+            | w :: ws =>
+              match compactEvent w with
+              | none => none
+              | some line =>
+                match builderStep st line with
+                | some (st', _) => go st' ws
+                | none => none
+          match go s1 (evs.splitOn ",") with
+          | none => some (s, "bad-op")
+          | some s2 =>
+            match builderStep s2 ["finish"] with
+            | some (s3, out) =>
+              if how == "with_interner" then
+                match s3.caches[slot]? with
+                | some (some c3) => some ({ s3 with caches := s3.caches.set! slot (some (forgetCache c3)) }, out)
+                | _ => some (s3, out)
+              else some (s3, out)
+            | none => some (s, "bad-op")
+        | _ => some (s, "bad-op")
+      | _ => some (s, "bad-op")
+  | _ => none
+
 end Cst.Drv
